@@ -353,8 +353,21 @@ func report(vdir, prop, tier string, seed int, results []*engine.UnitResult, t0 
 					byBackend[o.Solver]++
 					dischargedNames = append(dischargedNames, o.Name)
 				case "unsat":
-					fmt.Printf("CHECK-BROKEN: vacuous: %s — %s\n", o.Name, o.Desc)
-					broken++
+					// after a failed obligation of the same unit everything later is assumed under a
+					// false hypothesis: the unreachable exit is a consequence of that failure, not a
+					// vacuous contract
+					failedBefore := false
+					for _, o2 := range r.VC.Obls {
+						if !o2.Cover && o2.KF == "" && o2.Status == "sat" {
+							failedBefore = true
+						}
+					}
+					if failedBefore {
+						notes = append(notes, "exit unreachable after the failed obligation(s) of "+r.Unit)
+					} else {
+						fmt.Printf("CHECK-BROKEN: vacuous: %s — %s\n", o.Name, o.Desc)
+						broken++
+					}
 				default:
 					notes = append(notes, "cover undecided: "+o.Name)
 				}
